@@ -179,6 +179,9 @@ def check(tier: str, seed: int, t0: float, build: core.BuildStatus) -> int:
                         continue
                     if dr[0] == "fault" and pr[0] == "fault":
                         continue
+                    if (dr[0] == "fault" and "div_zero" in str(dr[1:])) or (pr[0] == "fault" and pr[1] == "div_zero"):
+                        semrun.DIV_ZERO_SKIPPED[0] += 1   # one-sided division by zero: outside the shared value domain (semrun.compare_event)
+                        continue
                     ref_bad = {"event": ev, "coq": dr, "python": pr}
                     break
                 if diffs:
@@ -230,6 +233,9 @@ def check(tier: str, seed: int, t0: float, build: core.BuildStatus) -> int:
                     if dr[0] == "ok" and pr[0] == "rows" and semrun.rows_equal(dr[1], pr[1]):
                         continue
                     if dr[0] == "fault" and pr[0] == "fault":
+                        continue
+                    if (dr[0] == "fault" and "div_zero" in str(dr[1:])) or (pr[0] == "fault" and pr[1] == "div_zero"):
+                        semrun.DIV_ZERO_SKIPPED[0] += 1   # one-sided division by zero: outside the shared value domain (semrun.compare_event)
                         continue
                     ref_bad = {"event": ev, "coq": dr, "python": pr}
                     break
@@ -326,7 +332,7 @@ def check(tier: str, seed: int, t0: float, build: core.BuildStatus) -> int:
                f"x {n_events} events (collection sizes 0-4, value lattice with ties, zeros, negatives); non-trivial = at least 3 operators (fragment: two Counts or a Where); distinct by (backend, source)")
     oc.samples = samples or ["(no case was generated)"]
     known_keys = {k["key"] for k in core.known_findings() if k.get("property") == PID and k.get("status") == "known"}
-    oc.extra = {"histogram": dict(hist), "feature_histogram": dict(feat_hist), "programs_outside_ir": unparsed,
+    oc.extra = {"events_undecided_one_sided_division_by_zero": semrun.DIV_ZERO_SKIPPED[0], "histogram": dict(hist), "feature_histogram": dict(feat_hist), "programs_outside_ir": unparsed,
                 "explanation": "proof: fragment F1 for all queries x event lists (jobs) x member states; correspondence: fragment translator text == implementation text; search: differential execution for generated queries beyond the fragment",
                 "model_available": model is not None}
     if not [v for v in oc.violations if v.key not in known_keys] and (ps.broken or oc.correspondence_breaks or model is None or core.build_hygiene_cache()):
